@@ -17,7 +17,7 @@ RULE = ("valid encodings (google.protobuf serialisations of matrix / random / ma
         "wire type matrix on each field of the type (wire types 0,1,2,5 with well-formed payloads, 3/4 as a well-formed "
         "group, 6 and 7): a non-fitting occurrence must be kept verbatim as an unknown field and must not change any "
         "known field; 6/7 and field number 0 must be rejected; a group wrapping records of known fields must not alter "
-        "them; (4) random byte strings. google.protobuf's accept/reject decision is recorded per class. "
+        "them; (4) random byte strings. Also: cuts inside records the schema does not decode, ragged packed payloads (fixed width and varint), invalid UTF-8, malformed content inside groups, a non-fitting occurrence right after a fitting one, tags beyond 32 bits, corrupted frames through the sized loader (must raise or consume exactly the announced size). google.protobuf's accept/reject decision is recorded per class. "
         "distinct = distinct (type, malformed bytes) inputs.")
 ASSUMPTIONS = [
     "record boundaries of the valid encoding come from the independent spec-level codec",
